@@ -246,19 +246,24 @@ def quoted (tok : String) (rest : List String) : P (String × List String) :=
   | none => throw .profile
   | some (s, r) => pure (stripC ' ' (stripC '"' s), r)
 
-def validate (pr : Prof) (eligible : List Nat) : P Unit := do
+/-- no element occurs twice (the dict-based duplicate scan of `__validate`) -/
+def noDup : List Nat → Bool
+  | [] => true
+  | x :: xs => !xs.contains x && noDup xs
+
+def validate (pr : Prof) (eligible : List Nat) : P Unit :=
   if pr.nSeats == 0 || pr.nSeats > eligible.length then throw .profile
-  if pr.nBallots < eligible.length then throw .profile
-  for bl in pr.ballotLines do
-    if bl.2.eraseDups.length != bl.2.length then throw .profile
-  for bl in pr.ballotLinesEq do
-    if bl.2.flatten.eraseDups.length != bl.2.flatten.length then throw .profile
+  else if pr.nBallots < eligible.length then throw .profile
+  else if !(pr.ballotLines.all (fun bl => noDup bl.2)) then throw .profile
+  else if !(pr.ballotLinesEq.all (fun bl => noDup bl.2.flatten)) then throw .profile
+  else pure ()
 
 structure Profile where
   pr : Prof
   eligible : List Nat
 
-def parseTokens (toks : List String) : P Profile := do
+/-- everything up to the optional source / comment strings -/
+def parseCore (toks : List String) : P Prof := do
   match toks with
   | [] => throw .profile
   | t1 :: r1 =>
@@ -281,7 +286,7 @@ def parseTokens (toks : List String) : P Profile := do
           if !tt.startsWith "\"" then throw .profile
           let (title, r5) ← quoted tt r4
           let pr4 := { pr3 with title := title }
-          let pr5 ← match r5 with
+          match r5 with
             | [] => pure pr4
             | ts :: r6 =>
               if !ts.startsWith "\"" then pure pr4
@@ -295,12 +300,19 @@ def parseTokens (toks : List String) : P Profile := do
                   else do
                     let (cm, _) ← quoted tc r8
                     pure { pr5 with comment := some cm }
-          let eligible := (List.range pr5.nCand).map (· + 1) |>.filter (fun c => !pr5.withdrawn.contains c)
-          let final : Prof := { pr5 with ballotLines := pr5.ballotLines.reverse,
-                                         ballotLinesEq := pr5.ballotLinesEq.reverse,
-                                         names := pr5.names.reverse }
-          validate final eligible
-          pure { pr := final, eligible }
+
+def eligibleOf (pr : Prof) : List Nat :=
+  (List.range pr.nCand).map (· + 1) |>.filter (fun c => !pr.withdrawn.contains c)
+
+def finalProf (pr : Prof) : Prof :=
+  { pr with ballotLines := pr.ballotLines.reverse, ballotLinesEq := pr.ballotLinesEq.reverse, names := pr.names.reverse }
+
+/-- `__validate` and the construction of the public profile -/
+def finishProfile (pr : Prof) : P Profile := do
+  validate (finalProf pr) (eligibleOf pr)
+  pure { pr := finalProf pr, eligible := eligibleOf pr }
+
+def parseTokens (toks : List String) : P Profile := parseCore toks >>= finishProfile
 
 /-- ElectionProfile(data=text) -/
 def parseText (text : List Char) : P Profile :=
